@@ -239,23 +239,24 @@ CLAIMED = {
         technique='Coq proof: symbol membership, exact lengths, padding form and header order for all inputs; conformance of the mode stream: theorem for two configurations, sound Coq-checked certificate per output otherwise'),
     'C17': dict(
         category='proof',
-        text='Theorems (Coq, axiom-free). C17_path_renders_dark -- for EVERY bitmap (any width, height and contents) with a dark top-left module: '
-             'whenever the model of Bitmap::path (bits_to_edge_graph, edge_left with its hint, the walk / euler / tours loops with the insert and '
-             'alternatives bookkeeping of the Hierholzer splicing, Jump between components, compress_path) returns a path, that path is well-formed '
-             '(axis-parallel non-zero segments, closed sub-paths, Move relative to the point the Close returned to, inside the bounding box) and its '
-             'even-odd filling is exactly the set of dark modules. Its parts: C17_tours_decompose (the micro steps are closed tours of unit moves in '
-             'the box that use every edge of the outline graph exactly once and nothing else -- invariants of walk, euler and tours, splice lemmas), '
-             'C17_compress_path (compress_path preserves the drawn vertical unit edges and produces a well-formed path), C17_graph_is_boundary (the '
-             'outline graph is the dark/light boundary), C17_evenodd_fills_dark (any well-formed path with odd multiplicity exactly on the boundary '
-             'fills exactly the dark modules; telescoping parity argument), C17_pixels (pixels() = the dark modules in row-major order), C17_unicode '
-             '(each block character shows the two modules it covers, inside a one-module light border). The path theorem is partial correctness: that '
-             'the expect() sites and the loop bounds of the model are never hit is not proved; the correspondence run (implementation path = model '
-             'path, byte for byte) covers it per input. In addition every path the implementation returns is passed through a certificate check proved '
-             'sound in Coq (C17_check_sound, extracted) and re-filled by an independent Python rasteriser. Inputs of the correspondence: symbols of all '
-             '48 sizes, all bitmaps up to 3x3 with a dark top-left module, random bitmaps, constructed topologies (checkerboards, nested rings, islands, '
-             'combs, spiral, holes), one bitmap with more than 65535 outline edges.',
+        text='Theorems (Coq, axiom-free). C17_path -- for EVERY bitmap (any width and height up to the i16 limit of the implementation, any contents) '
+             'with a dark top-left module the model of Bitmap::path (bits_to_edge_graph, edge_left with its hint, the walk / euler / tours loops with the '
+             'insert and alternatives bookkeeping of the Hierholzer splicing, Jump between components, compress_path) returns a path, that path is '
+             'well-formed (axis-parallel non-zero segments, closed sub-paths, Move relative to the point the Close returned to, inside the bounding box) '
+             'and its even-odd filling is exactly the set of dark modules. Its parts: C17_path_total (every node of the outline graph has even degree, so '
+             'the expect() of the walk is never reached; every loop iteration removes an edge, so the loops end), C17_path_renders_dark (partial '
+             'correctness), C17_tours_decompose (the micro steps are closed tours of unit moves in the box that use every edge of the outline graph '
+             'exactly once and nothing else -- invariants of walk, euler and tours, splice lemmas), C17_compress_path (compress_path preserves the drawn '
+             'vertical unit edges and produces a well-formed path), C17_graph_is_boundary (the outline graph is the dark/light boundary), '
+             'C17_evenodd_fills_dark (any well-formed path with odd multiplicity exactly on the boundary fills exactly the dark modules; telescoping '
+             'parity argument), C17_pixels (pixels() = the dark modules in row-major order), C17_unicode (each block character shows the two modules it '
+             'covers, inside a one-module light border). The model is hand-written (Model/Path.v) and tied to src/placement/path.rs by the correspondence '
+             'run (implementation path = model path, byte for byte). In addition every path the implementation returns is passed through a certificate '
+             'check proved sound in Coq (C17_check_sound, extracted) and re-filled by an independent Python rasteriser. Inputs of the correspondence: '
+             'symbols of all 48 sizes, all bitmaps up to 3x3 with a dark top-left module, random bitmaps, constructed topologies (checkerboards, nested '
+             'rings, islands, combs, spiral, holes), one bitmap with more than 65535 outline edges.',
         design_ref='DESIGN.md 6/C17',
-        note='Level: proof of the property for the Gallina model of the algorithm (partial correctness: for every path that is returned) + '
+        note='Level: proof of the property for the Gallina model of the algorithm (total correctness) + '
              'correspondence of model and implementation + verified certificate checking per output. '
              'Trusted: Coq kernel, Spec/EvenOdd.v as the meaning of even-odd filling, extraction, harness, the hand-written model Model/Path.v (tied by the correspondence run). No axioms.',
         technique='Coq proof: invariants of the Hierholzer loops (walk/euler/tours), compress_path, even-odd parity theorem; pixels and unicode specs; model tied by correspondence, sound certificate checker run on each implementation output'),
